@@ -15,7 +15,7 @@
     ([C02_vested_drained]). *)
 From LP Require Import Proofs.Tactics Proofs.LedgerBase Proofs.Gates Proofs.Frames Proofs.Settle Proofs.Confirm Proofs.Reserve Proofs.Ledger
   Proofs.ClaimLedger Proofs.Lock Proofs.Vesting Proofs.Examples
-  Proofs.Resume Proofs.Leftover Proofs.Lifecycle Proofs.VestedCover Proofs.VestedLifecycle.
+  Proofs.Resume Proofs.Leftover Proofs.Lifecycle Proofs.VestedCover Proofs.VestedLifecycle Proofs.Setup Proofs.SetupGt Proofs.SetupVested.
 Open Scope N_scope.
 
 (** the single deposit: accepted iff nothing was deposited yet and the call value is exactly one
@@ -134,6 +134,30 @@ Theorem C02_vested_pipeline : forall (H : list N -> list N) v2 l w0 lf wf ef bf 
   ClaimInv w3 (map fst l) /\ VInv v2 w3 (map fst l) 0.
 Proof. exact pipeline_gt_vested. Qed.
 
+(** through the set-up history (allocation with guarantees, deposit, confirmations, pause, timeline,
+    support and tokens-per-ticket transactions, in any order): the contract holds exactly the
+    recorded deposit, which is tokens-per-ticket x (winners + reservations); nobody is credited *)
+Theorem C02_setup_ledger : forall (H : list N -> list N) v w, guar v -> setup_reach_gt H v w ->
+  bal w sc_addr (lp_token (st w)) 0 = total_deposited (st w) /\
+  (if deposited (st w) then total_deposited (st w) = tpt (st w) * reserve_total (st w) else total_deposited (st w) = 0) /\
+  total_guaranteed (st w) = total_reserved (vflag v) (st w) /\
+  (forall a, total_claimable (st w) a = 0) /\ (forall a, claimed_balance (st w) a = 0).
+Proof.
+  intros H v w Hv Hr. pose proof (setup_reach_gt_LpInv H v w Hv Hr) as [Htc Hcb (Hres & _) Hbal Hd _ _]. auto.
+Qed.
+
+(** from deployment to the claim period: both ledgers *)
+Theorem C02_vested_from_deployment : forall (H : list N -> list N) v w0 lf wf ef bf w1 ls ws es bs w2 sd rest ld wd ed bd w3,
+  guar v -> setup_reach_gt H v w0 ->
+  deposited (st w0) = true -> 0 < price (st w0) ->
+  after_interrupted filter_tickets lf w0 = Some wf -> filter_tickets ef bf wf = Ok (w1, 0) ->
+  seeds w1 = sd :: rest ->
+  after_interrupted (select_winners H) ls w1 = Some ws -> select_winners H es bs ws = Ok (w2, 0) ->
+  after_interrupted (distribute_guaranteed_tickets H (vflag v)) ld w2 = Some wd ->
+  distribute_guaranteed_tickets H (vflag v) ed bd wd = Ok (w3, 0) ->
+  exists l : list (N * N), ClaimInv w3 (map fst l) /\ VInv (vflag v) w3 (map fst l) 0.
+Proof. exact deployed_vested. Qed.
+
 (** any claim (first or later, any round): both ledgers are kept; the caller receives exactly the
     decrease of what the contract owes them *)
 Theorem C02_vested_claim : forall v2 e w w' A x,
@@ -206,6 +230,8 @@ Print Assumptions C02_claim_covered_locked.
 Print Assumptions C02_owner_leaves_cover.
 Print Assumptions C02_vested_ledger.
 Print Assumptions C02_vested_pipeline.
+Print Assumptions C02_setup_ledger.
+Print Assumptions C02_vested_from_deployment.
 Print Assumptions C02_vested_claim.
 Print Assumptions C02_vested_owner.
 Print Assumptions C02_vested_claim_live.
